@@ -40,6 +40,6 @@ def run(replay=None):
     for i, clause in rec.validate(canary):
         inf = rec.info[i]
         rep.violation('%s|%s' % (clause, inf['text']), 'refactor_reference(%r) -> (%s) violates %s' % (inf['text'], inf['result'] or inf['out'], clause), inf)
-    for e in rec.events[:: max(1, len(rec.events) // 8)]:
+    for e in rec.dict_events()[:: max(1, len(rec.dict_events()) // 8)]:
         rep.sample({'input': rec.info[e['id']]['text'], 'alias': e['alias'], 'pair': rec.info[e['id']]['result']})
     return rep.finish()
